@@ -61,7 +61,17 @@ func pushFunc(c *chk.Ctx) *ssa.Function {
 	for _, st := range c.P.FieldStores(c.M.SCallID) {
 		fa := st.Addr.(*ssa.FieldAddr)
 		if _, fresh := ir.NormCell(fa.X).(*ssa.Alloc); !fresh {
-			return st.Parent()
+			f := st.Parent()
+			// the registration may live in a private helper: the push function is the outermost
+			// private function that (solely) calls it
+			for i := 0; i < 4; i++ {
+				s, ok := c.P.SoleCaller(f)
+				if !ok || ir.Exported(s.Caller) {
+					break
+				}
+				f = s.Caller
+			}
+			return f
 		}
 	}
 	return nil
@@ -201,7 +211,7 @@ func ruleReplyFilter(c *chk.Ctx) {
 			if cc.StaticCallee() == nil || ir.BaseName(cc.StaticCallee()) != "Add" || len(cc.Args) < 2 || !chk.IsField(cc.Args[0], c.M.SInq) {
 				return
 			}
-			if f == stopFunc(c, "server") {
+			if st := stopFunc(c, "server"); st != nil && c.P.InExt(st, f) {
 				return
 			}
 			okProv := true
